@@ -167,7 +167,7 @@ theorem runQuery_of_numbered (hE : E.map insp = Fs.map some) (N : Numbered Fs v)
       rw [this, insp_nil] at hi; cases hi
     have hsub' : ∀ x ∈ frs ++ [d], x ∈ E := by
       intro x hx
-      exact hsub x (by simp only [List.mem_append, List.mem_cons, List.mem_singleton, List.not_mem_nil, or_false] at hx ⊢; rcases hx with h | h; exact .inl h; exact .inr (.inl h))
+      exact hsub x (by simp only [List.mem_append, List.mem_cons, List.not_mem_nil, or_false] at hx ⊢; rcases hx with h | h; exact .inl h; exact .inr (.inl h))
     obtain ⟨c1, c2⟩ := collect_of_numbered hE N (frs ++ [d]) hsub'
     have happ : frs ++ d :: ds = (frs ++ [d]) ++ ds := by simp
     by_cases hc : ∀ x ∈ E, x ∈ frs ++ [d]
